@@ -100,6 +100,23 @@ def spec_blocking(w, e, neql, rng):
         if i in per3 and not close(per3[i][2], per[i][2], 4e-6, 1e-13):
             bad.append(("error ignores an added constant", {"c": c, "size": i, "before": per[i][2], "after": per3[i][2]}))
             break
+    # the same two clauses where rounding matters: a large common offset on a series with small fluctuations (total energies of
+    # 1e4..1e6 with noise 1e-3), and constant non-dyadic energies under non-uniform weights
+    cb = rng.choice([25000.0, -1.0e6, 3.0e5, -77000.0])
+    es = [x * 2.0 ** -10 for x in e]
+    _, _, pa = call_blocking(w, es, neql)
+    mb, _, pb = call_blocking(w, [x + cb for x in es], neql)
+    for i in pa:
+        if i in pb and not (close(pb[i][2], pa[i][2], 2e-5, 1e-11)):
+            bad.append(("error ignores an added constant", {"c": cb, "energy_scale": "2^-10", "size": i, "before": pa[i][2], "after": pb[i][2]}))
+            break
+    if len(pa) != len(pb):
+        bad.append(("error ignores an added constant", {"c": cb, "energy_scale": "2^-10", "block_sizes_before": sorted(pa), "block_sizes_after": sorted(pb)}))
+    cv = rng.choice([0.1, -74.3, 1234.567, -1.0e5 / 3])
+    _, ec, pc = call_blocking(w, [cv] * len(e), neql)
+    worst = max([abs(v[2]) if v[2] == v[2] else float("inf") for v in pc.values()] + [abs(ec) if ec is not None and ec == ec else (float("inf") if ec is not None else 0.0)])
+    if worst > 1e-11 * abs(cv):
+        bad.append(("constant data never produce a non-zero error", {"energy": cv, "largest_error_reported": worst}))
     if len(set(ee)) == 1 and err is not None and err != 0.0:
         bad.append(("constant data never produce a non-zero error", {"err": err}))
     if 1 in per:
